@@ -206,6 +206,9 @@ func c11(c *core.Ctx) {
 		}
 	}
 
+	rNR := c.Rule("C11.noresurrect", "a claim never brings a deleted record back: outside the save path a record is (re)inserted into an ordered index of the swamp only inside a guard region on that record after the key index was looked up again (the beacon's own ReindexExpiration re-inserts only keys still present in its key map: C11.repinv) (shared with C07.liveinsert)", 6)
+	liveInsertRule(c, rNR)
+
 	rI := c.Rule("C11.repinv", "every append to beacon.treasuresByOrder adds an element that is in treasuresByKeys: taken from a range over the key map or over the ordered slice, stored into the key map in the same function, or checked with a key-map lookup", 4)
 	byKeys := p.MustField(pkgBeacon, "beacon", "treasuresByKeys")
 	for _, f := range p.FuncsIn(pkgBeacon) {
